@@ -350,7 +350,7 @@ theorem pretty_single (n k : Nat) (c : Comp) (j : Nat) :
 
 /-- accessors that never touch the object -/
 def pureReader : ChoiceOp → Bool
-  | .len | .keys | .contains _ | .values | .items | .getComponent | .getChosenName | .pretty | .eqTo _
+  | .len | .keys | .contains _ | .values | .items | .getComponent | .getChosenName | .pretty | .eqTo _ _
   | .encode => true
   | _ => false
 
@@ -455,7 +455,7 @@ theorem choice_step {n : Nat} (hn : n ≠ 0) {st : ChoiceSt} (hinv : Choice.Inv 
       | hole => exact absurd rfl hcne
       | ph => simp [Comp.isVal, Comp.get?]
       | val z => simp [Comp.isVal, Comp.get?, hk]
-  | eqTo v =>
+  | eqTo k' v =>
     rcases abs_shapes hn hinv with ⟨h, ha⟩ | ⟨h, ha⟩ | ⟨l, k, c, h, hlen, hk, hc, hcne, _, ha⟩
     · subst h; rw [ha]; exact ⟨rfl, by rw [impl_fst_reader _ _ _ rfl, spec_fst_reader _ _ _ rfl]; exact ha, by rw [impl_fst_reader _ _ _ rfl]; exact hinv⟩
     · subst h; rw [ha]; exact ⟨rfl, by rw [impl_fst_reader _ _ _ rfl, spec_fst_reader _ _ _ rfl]; exact ha, by rw [impl_fst_reader _ _ _ rfl]; exact hinv⟩
@@ -465,10 +465,14 @@ theorem choice_step {n : Nat} (hn : n ≠ 0) {st : ChoiceSt} (hinv : Choice.Inv 
       | nil => simp at hlen; omega
       | cons x xs =>
         simp only [Choice.step, OptionSpec.step, Choice.chosen, hc, Bool.not_true, Bool.false_eq_true, if_false]
-        cases c with
-        | hole => exact absurd rfl hcne
-        | ph => rfl
-        | val z => rfl
+        by_cases hkk : k = k'
+        · subst hkk
+          simp only [ne_eq, not_true_eq_false, if_false]
+          cases c with
+          | hole => exact absurd rfl hcne
+          | ph => rfl
+          | val z => rfl
+        · simp only [ne_eq, hkk, not_false_eq_true, if_true]
   | encode => exact ⟨rfl, rfl, hinv⟩
 
 /-- the fresh object satisfies the invariant -/
@@ -621,7 +625,7 @@ theorem choice_illformed {n : Nat} (hn : n ≠ 0) {st : ChoiceSt} (hinv : Choice
     simp only [choiceIllFormed, decide_eq_true_eq] at h
     simp only [Choice.step, hname k h]; exact ⟨by first | rfl | trivial, by first | rfl | trivial⟩
   | clear | reset | clone _ | len | keys | contains _ | values | items | getComponent | getChosenName | pretty
-    | eqTo _ | encode => simp [choiceIllFormed] at h
+    | eqTo _ _ | encode => simp [choiceIllFormed] at h
 
 /-- abstract content is a function of the prototype state -/
 theorem choice_abs_spec (st : ChoiceSt) : Choice.abs st = OptionSpec.abs (Choice.absO st) := by
